@@ -447,14 +447,14 @@ fn real_signals(rep: &mut Reporter) -> serde_json::Value {
             ecases.push(("filter selects a link that never comes", s(&["check", "sanity", "--filter-link", "9"]), sig));
             ecases.push(("filtered writing of a link that never comes", s(&["--filter-link", "9", "-o", "out.raw"]), sig));
         }
-        let res = par_map(&ecases, |_, (_, args, sig)| endless_input_run(args, &unit, 400, *sig, 6));
+        let res = par_map(&ecases, |_, (_, args, sig)| endless_input_run(args, &unit, 400, *sig, 10));
         for ((label, args, sig), r) in ecases.iter().zip(res.iter()) {
             endless += 1;
             if r.is_none() {
                 let skipping = label.contains("never comes");
                 rep.violation(Violation {
                     signature: format!("signal:no-end-while-input-keeps-coming:{}", if skipping { "reader-skipping-filtered-out-packets" } else { "reader-delivering-packets" }),
-                    description: format!("still running 6 s after signal {sig} while the producer keeps writing well-framed packets [{label} | `{}`]", args.join(" ")),
+                    description: format!("still running 10 s after signal {sig} while the producer keeps writing well-framed packets [{label} | `{}`]", args.join(" ")),
                     replay: json!({"args": args, "signal": sig, "label": label, "kind": "endless-input"}),
                 });
             }
